@@ -117,10 +117,10 @@ def run_portfolio(text, timeout=20, solvers=None, want_model=True, need=1, use_c
         # most obligations are easy: ask one solver first (a third of the processes), race all three only if it
         # does not answer quickly
         r = run_portfolio(text, timeout=FAST_TIMEOUT, solvers=[FAST_FIRST], want_model=want_model, need=1, use_cache=False)
-        if r.status in ("unsat", "sat"):
-            if r.status == "unsat":
-                _store_cache(h, {"h": h, "status": "unsat", "solver": r.solver, "need": 1, "per_solver": r.per_solver})
+        if r.status == "unsat":
+            _store_cache(h, {"h": h, "status": "unsat", "solver": r.solver, "need": 1, "per_solver": r.per_solver})
             return r
+        # a `sat` from the single fast solver is not reported on its own: the full race below hears the others
     solvers = solvers or list(SOLVERS)
     timeout = int(round(timeout * slack()))
     fd, path = tempfile.mkstemp(suffix=".smt2", prefix="govc_")
@@ -164,9 +164,13 @@ def run_portfolio(text, timeout=20, solvers=None, want_model=True, need=1, use_c
             t_first = per[definite[0]]["secs"]
             if time.time() - t0 > t_first + max(3.0, 4 * t_first) * slack():
                 break
-        # a sat answer with a model is final for failure reporting
+        # a `sat` is what turns into an alarm, so it is not taken from one solver alone if another one can be heard:
+        # the others get a bounded time (as for the second `unsat` of the thorough tier); a contradicting `unsat`
+        # is resolved by majority below
         if "sat" in agree:
-            break
+            t_first = per[agree["sat"][0]]["secs"]
+            if not pending or len(definite) >= 2 or time.time() - t0 > t_first + max(3.0, 4 * t_first) * slack():
+                break
         if pending:
             time.sleep(0.005)
     for s, p in pending.items():
@@ -189,7 +193,20 @@ def run_portfolio(text, timeout=20, solvers=None, want_model=True, need=1, use_c
     if definite:
         vals = set(per[s]["status"] for s in definite)
         if len(vals) > 1:
-            return Result("error", ",".join(definite), secs, "SOLVER DISAGREEMENT: %r" % sts, per_solver=per)
+            ns = sum(1 for s in definite if per[s]["status"] == "sat")
+            nu = len(definite) - ns
+            if ns == nu:
+                return Result("error", ",".join(definite), secs, "SOLVER DISAGREEMENT: %r" % sts, per_solver=per)
+            # two against one: the odd one out is recorded (per_solver) and overruled
+            st = "sat" if ns > nu else "unsat"
+            win = [s for s in definite if per[s]["status"] == st][0]
+            model = parse_model(outputs[win]) if st == "sat" else {}
+            r = Result(st, win, secs, outputs[win][:4000], model, per)
+            r.confirmed = max(ns, nu)
+            r.overruled = [s for s in definite if per[s]["status"] != st]
+            if st == "unsat":
+                _store_cache(h, {"h": h, "status": "unsat", "solver": win, "need": r.confirmed, "per_solver": per})
+            return r
         st = vals.pop()
         win = definite[0]
         model = parse_model(outputs[win]) if st == "sat" else {}
